@@ -601,11 +601,16 @@ class Model(IOSpecOperation, EditableParent):
                 obj, key = n._impl[OBJ], n._impl[KEY]
                 if key not in obj.input_keys:
                     with self._impl.system.trace_stack(maxlen=None):
-                        obj.get_value_from_key(key)
-                        tracestack = self._impl.system.callstack.tracestack
-                        for trace in tracestack:
-                            if trace[0] == "ENTER":
-                                calculated.append(trace[3])
+                        try:
+                            obj.get_value_from_key(key)
+                        finally:
+                            # Also if the target fails: the values
+                            # calculated on the way are cleared below
+                            tracestack = (
+                                self._impl.system.callstack.tracestack)
+                            for trace in tracestack:
+                                if trace[0] == "ENTER":
+                                    calculated.append(trace[3])
 
                     calc_targets.append(n._impl)
 
